@@ -424,7 +424,23 @@ static const char_dispatch_type_t char_dispatch_table[256] = {
     [255] = CHAR_TYPE_IDENTIFIER,
 };
 
+/* Every construct that recurses into edn_read_value (collections, tagged
+ * literals, discards, metadata) counts one level of parser->depth. Refusing
+ * to go deeper than EDN_MAX_NESTING_DEPTH bounds the C stack used by the
+ * reader independently of the input. */
+static bool edn_nesting_too_deep(edn_parser_t* parser) {
+    if (parser->depth < EDN_MAX_NESTING_DEPTH) {
+        return false;
+    }
+    parser->error = EDN_ERROR_INVALID_SYNTAX;
+    parser->error_message = "Maximum nesting depth exceeded";
+    parser->error_start = parser->current;
+    parser->error_end = parser->current + 1;
+    return true;
+}
+
 edn_value_t* edn_read_value(edn_parser_t* parser) {
+restart:
     if (parser->current < parser->end) {
         unsigned char c = (unsigned char) *parser->current;
         /* Quick check for whitespace: 0x09-0x0D, 0x1C-0x1F, space, comma, semicolon */
@@ -453,22 +469,35 @@ edn_value_t* edn_read_value(edn_parser_t* parser) {
             return edn_read_character(parser);
 
         case CHAR_TYPE_LIST_OPEN:
+            if (edn_nesting_too_deep(parser)) {
+                return NULL;
+            }
             return edn_read_list(parser);
 
         case CHAR_TYPE_VECTOR_OPEN:
+            if (edn_nesting_too_deep(parser)) {
+                return NULL;
+            }
             return edn_read_vector(parser);
 
         case CHAR_TYPE_MAP_OPEN:
+            if (edn_nesting_too_deep(parser)) {
+                return NULL;
+            }
             return edn_read_map(parser);
 
         case CHAR_TYPE_HASH:
             /* Hash requires lookahead: #{ (set), ## (symbolic), #_ (discard), #: (namespaced map), # (tagged) */
             if (parser->current + 1 < parser->end) {
                 char next = parser->current[1];
+                if (next == '#') {
+                    return edn_read_symbolic_value(parser);
+                }
+                if (edn_nesting_too_deep(parser)) {
+                    return NULL;
+                }
                 if (next == '{') {
                     return edn_read_set(parser);
-                } else if (next == '#') {
-                    return edn_read_symbolic_value(parser);
                 } else if (next == '_') {
                     /* Discard next form and parse the one after it */
                     edn_value_t* discarded = edn_read_discarded_value(parser);
@@ -478,8 +507,10 @@ edn_value_t* edn_read_value(edn_parser_t* parser) {
                         return NULL; /* Error during discard */
                     }
                     (void) discarded; /* Suppress unused variable warning */
-                    /* Recursively parse the next value (which may itself be another discard) */
-                    return edn_read_value(parser);
+                    /* Parse the next value (which may itself be another discard). A
+                     * jump rather than a call: a long run of discarded forms must
+                     * not grow the stack. */
+                    goto restart;
                 }
 #ifdef EDN_ENABLE_CLOJURE_EXTENSION
                 else if (next == ':') {
@@ -519,6 +550,9 @@ edn_value_t* edn_read_value(edn_parser_t* parser) {
 
 #ifdef EDN_ENABLE_CLOJURE_EXTENSION
         case CHAR_TYPE_METADATA:
+            if (edn_nesting_too_deep(parser)) {
+                return NULL;
+            }
             return edn_read_metadata(parser);
 #endif
 
